@@ -20,9 +20,10 @@ Theorem idempotent o bs t v rest bs' :
   encode (dual o) t v = Ok bs' ->
   forall rest', decode o (bs' ++ rest') = Ok (t, canon (dual o) v, rest').
 Proof.
-  intros _ G E rest'. unfold reenc_guard in G. apply andb_true_iff in G as [Gw Gs].
+  intros _ G E rest'. unfold reenc_guard in G. apply andb_true_iff in G as [G Gm].
+  apply andb_true_iff in G as [Gw Gs].
   rewrite <- (dual_involutive o) at 1.
-  apply roundtrip_partial; assumption.
+  apply roundtrip_partial; try assumption. apply marsh_inv_none. exact Gm.
 Qed.
 
 (* ... to the SAME value when the decoded value is in canonical form (no float32 signalling NaN,
